@@ -3,7 +3,7 @@ import numpy as np
 
 from vlib import core, calib, gen_fibre
 from vlib.core import dlit, dlist, dmat, lst
-from vlib.props.c01 import secs_lit, ms_lit, sparse_rows
+from vlib.props.c01 import secs_lit, ms_lit, sparse_rows, NotIdentifiable
 
 PRELUDE = "Require Import DTS.Base.Dyadic DTS.Model.Sections DTS.Corr.WlsC DTS.Corr.C02C.\n"
 E_CERT, E_TOL = -44, -23
@@ -28,6 +28,10 @@ def build(case):
     mi = match_sections(ds, f.matching) if f.matching else None
     X, y, w, _ = calibrate_double_ended_solver(ds, f.sections, kw["st_var"], kw["ast_var"], kw["rst_var"], kw["rast_var"], solver="external",
                                                matching_indices=mi, trans_att=list(f.trans_att), nta=len(f.trans_att))
+    Xd = X.toarray() * np.sqrt(w)[:, None]
+    Xd = Xd / np.maximum(np.linalg.norm(Xd, axis=0), 1e-300)
+    if np.linalg.matrix_rank(Xd, tol=1e-9) < Xd.shape[1] - len(f.trans_att):
+        raise NotIdentifiable()
     va = case.variance_arrays()
     st, ast, rst, rast = (ds[k].values for k in ("st", "ast", "rst", "rast"))
     ivF = st ** -2 * va["st_var"] + ast ** -2 * va["ast_var"]
@@ -108,6 +112,9 @@ def run_params(ctx, plist, name):
         ctx.count(f"nta={d['nta']}"); ctx.count(f"nm>0={int(d['nm'] > 0)}"); ctx.count(f"match_outside>0={int(d['match_outside'] > 0)}"); ctx.count(f"var={d['var_mode']}")
         try:
             e = build(case)
+        except NotIdentifiable:
+            ctx.count("skipped-not-identifiable")
+            continue
         except Exception as ex:
             ctx.violation(f"calibration-raised:{type(ex).__name__}:nta={d['nta']},nm>0={int(d['nm'] > 0)}", f"calibrate_double_ended raised {type(ex).__name__}: {str(ex)[:150]} on a valid input", p)
             continue
